@@ -69,7 +69,7 @@ Fixpoint pre (s : sch) : sch :=
       hn ty nl en (map pre any) (map pre one) (map pre all) (option_map pre items) fmt d o
   end.
 
-(* a schema held directly by a non-Schema object (components.schemas.<name>, Parameter.schema, MediaType.schema, Header.schema):
+(* a schema held directly by a non-Schema object (components.schemas.<name>, the schema of a parameter, media type or header object):
    with the pinned pydantic the `after` validators run TWICE on that object (observed; its children are not revalidated) *)
 Definition hn_again (s : sch) : sch :=
   match s with
